@@ -193,9 +193,8 @@ func c08RotNode(r *c08N) *c08N {
 	return r
 }
 
-// c08MulImpure: the spliced chain contains // or % (then the value may change — `7 * ((3 % 2) / 2)` ≠
-// `((7 * 3) % 2) / 2`; a pure chain of * and / keeps its value up to rounding)
-func c08MulImpure(n *parser.ASTNode) bool {
+// c08HasMulRight: class mul-right-brackets — a times node whose right child is times or div
+func c08HasMulRight(n *parser.ASTNode) bool {
 	return c08Any(n, func(x *parser.ASTNode) bool {
 		if x.Name != parser.NodeTIMES || len(x.Children) != 2 || x.Children[1] == nil {
 			return false
@@ -204,12 +203,13 @@ func c08MulImpure(n *parser.ASTNode) bool {
 		if (r.Name != parser.NodeTIMES && r.Name != parser.NodeDIV) || len(r.Children) != 2 {
 			return false
 		}
+		// the brackets are only left out for a pure chain of * and / (fix C08-product-chain-brackets)
 		for c := r; c != nil && c08Mul120(c.Name) && len(c.Children) == 2; c = c.Children[0] {
 			if c.Name == parser.NodeDIVINT || c.Name == parser.NodeMODINT {
-				return true
+				return false
 			}
 		}
-		return false
+		return true
 	})
 }
 
@@ -774,13 +774,25 @@ func c08Run(payload string) string {
 		res += " ff=" + c08FormatFile(src, txt)
 	}
 	if ev && (rt == "ok" || (rt == "diff" && eqm == "ok")) {
-		same := c08Behaviour(src) == c08Behaviour(txt)
-		if c08RawInterp(ast) || (rt == "diff" && c08MulImpure(ast)) {
+		orig := c08Behaviour(src)
+		same := orig == c08Behaviour(txt)
+		// re-association inside mul-right-brackets changes the ORDER of evaluation: when the original raises an
+		// error or has side effects, which error is raised / in which order the effects happen may differ.
+		// Behaviour is demanded there only if the original evaluates to a value without error, side effect or log.
+		mulFree := rt == "diff" && c08HasMulRight(ast) && !(strings.HasPrefix(orig, "v:") && strings.HasSuffix(orig, "||"))
+		if c08RawInterp(ast) {
 			if same {
-				CountRun("known-value-change-shapes.behaviour-same")
+				CountRun("raw-with-interpolation.behaviour-same")
 			} else {
-				CountRun("known-value-change-shapes.behaviour-differs")
+				CountRun("raw-with-interpolation.behaviour-differs")
 			}
+		} else if mulFree {
+			if same {
+				CountRun("mul-right-brackets.error-or-effects.behaviour-same")
+			} else {
+				CountRun("mul-right-brackets.error-or-effects.behaviour-differs")
+			}
+			res += " beh=ok"
 		} else if same {
 			res += " beh=ok"
 		} else {
